@@ -1170,11 +1170,14 @@ def eval_one(spec):
     sink, st, jobs = Sink(), {"tags": {}}, []
     rec = {"op": spec["op"], "v": spec["v"], "mutkind": "hand" if "hand" in spec else _mutkind(spec), "tag": None, "unsupported": None}
     try:
-        if "hand" in spec:
-            p = [q for q in hand_plans(spec["v"]) if q.spec["src"] == spec["hand"]][0]
+        if "kind_base" in spec:
+            rec["kind_hist"] = kind_eval(sink, spec["kind_base"], jobs)
         else:
-            p = plan_from_spec(spec)
-        rec["tag"] = evaluate(sink, p, st, jobs)
+            if "hand" in spec:
+                p = [q for q in hand_plans(spec["v"]) if q.spec["src"] == spec["hand"]][0]
+            else:
+                p = plan_from_spec(spec)
+            rec["tag"] = evaluate(sink, p, st, jobs)
     except Unsupported as e:
         rec["unsupported"] = str(e).split(":")[0]
     except Exception as e:  # noqa: BLE001
@@ -1190,6 +1193,8 @@ def eval_one(spec):
 
 
 def _jspec(spec):
+    if "kind_base" in spec:
+        return dict({k: v for k, v in spec.items() if k != "kind_base"}, kind_base=_jspec(spec["kind_base"]))
     return spec_to_json({k: v for k, v in spec.items() if not k.startswith("_")}) if "node" in spec else dict(spec)
 
 
@@ -1267,6 +1272,85 @@ def parallel_eval(specs, nproc):
     for t in threads:
         t.join()
     return results, sorted(crashed)
+
+
+# ------------------------------------------------------------------------------------------------ wrong-kind arguments
+
+
+def kind_eval(run, b, jobs):
+    """One constructor (base spec b): each input field once with an argument of the WRONG KIND - a required input given as None / as a
+    list of Vars / as a non-Var object, an optional input given as a list / a non-Var object, a variadic field given as a bare Var / a
+    list holding None / a list holding a non-Var / a non-iterable.  The call must raise at the call site (direct oracle) and the model's
+    [construct] must answer RaisedOther for the variants it can express (correspondence, evaluated by the parent).  Runs in a worker
+    process: a wrong-kind argument that gets as far as ONNX's C++ inference may abort the interpreter."""
+    p = plan_from_spec(b)
+    ci = p.ci
+    some_var = next((v for v in p.kw.values() if type(v).__name__ == "Var"), None)
+    if some_var is None:
+        some_var = next((v[0] for v in p.kw.values() if isinstance(v, list) and v), None)
+    if some_var is None:
+        raise Unsupported("no Var among the arguments")
+    hist = {}
+    for si, (fname, kind) in enumerate(ci.in_slots):
+        if fname not in p.kw:
+            continue
+        cur = p.ins[si]
+        any_id = cur[1] if cur[0] == "S" else (cur[1] if cur[0] == "O" and cur[1] is not None else (cur[1][0] if cur[0] == "V" and cur[1] else 0))
+        if kind == "SINGLE":
+            variants = [("none", None, ("O", None)), ("list-of-var", [some_var], ("V", [any_id])), ("array", np.zeros(2, np.float32), None),
+                        ("float", 1.5, None)]
+        elif kind == "OPTIONAL":
+            variants = [("list-of-var", [some_var], ("V", [any_id])), ("array", np.zeros(2, np.float32), None), ("float", 1.5, None)]
+        else:
+            variants = [("bare-var", some_var, ("S", any_id)), ("list-with-none", [some_var, None], None),
+                        ("list-with-array", [some_var, np.zeros(2, np.float32)], None), ("not-iterable", 3, None)]
+        for vname, value, coq_arg in variants:
+            kw = dict(p.kw)
+            kw[fname] = value
+            tag = f"{kind.lower()}/{vname}"
+            PHASE("wrong-kind:" + fname + "=" + vname)
+            CAP.calls.clear()
+            with warnings.catch_warnings():
+                warnings.simplefilter("ignore")
+                try:
+                    ci.con(**kw)
+                    exc = None
+                except Exception as e:  # noqa: BLE001
+                    exc = e
+            hist[tag] = hist.get(tag, 0) + 1
+            label = f"{ci.op}@v{b['v']} [{b['src']} / wrong-kind:{fname}={vname}]"
+            if exc is None:
+                run.fail("impl", f"C05/{ci.op}/wrong-kind-accepted/{tag}",
+                         f"{ci.op}: the constructor ACCEPTS a {vname} argument for the {kind.lower()} input field '{fname}' - the call "
+                         "must raise at the call site (ONNX rejects a node without a required input; a non-Var is no operand at all)",
+                         {"call": label, "field": fname, "field_kind": kind, "argument": vname, "spec": _jspec(b)})
+            if coq_arg is not None:
+                ins = list(p.ins)
+                ins[si] = coq_arg
+                kk = p.k_variadic if p.k_variadic is not None else 0
+                term = L.coq_call(ci.coq_sig(), ins, ("init", max(0, int(kk)), p.n_vars), p.attrs, p.env)
+                jobs.append({"kind_job": True, "label": label, "term": term, "spec": b,
+                             "real": None if exc is None else type(exc).__name__ + ": " + str(exc)[:200],
+                             "real_raises": exc is not None and not isinstance(exc, InferenceError)})
+    return hist
+
+
+def run_kind_jobs(run, jobs, st):
+    exprs = [f"let c := {j['term']} in (args_ok (s_ins (c_sig c)) (c_ins c), show_outcome (construct (fun _ : smodel => "
+             f"@inl string (list (string * option oty)) \"unreachable\") c))" for j in jobs]
+    ok = 0
+    if exprs:
+        res = run.coq_eval("c05kind", HEADER, exprs, shard=150)
+        for j, r in zip(jobs, res):
+            flat = " ".join(r.split())
+            model_raises = "false" in flat.split(",")[0] and '"RaisedOther"' in flat
+            if model_raises and j["real_raises"]:
+                ok += 1
+            else:
+                run.fail("corr", "C05/model-vs-impl/wrong-kind", "model and implementation disagree on a wrong-kind argument",
+                         {"call": j["label"], "model": flat[:200], "real": j["real"], "spec": j["spec"]})
+    st["coq_ok"] = st.get("coq_ok", 0) + ok
+    return ok
 
 
 # ------------------------------------------------------------------------------------------------ driver
@@ -1349,8 +1433,12 @@ def run(run: Run) -> int:
             ms = None
         if ms is not None:
             all_specs.append(ms)
+    n_plain = len(all_specs)
+    for b in first_of.values():    # wrong-kind arguments, one spec per distinct constructor
+        all_specs.append({"v": b["v"], "op": b["op"], "src": b["src"], "mut": "wrong-kind", "kind_base": b})
     results, crashed = parallel_eval(all_specs, max(2, NPROC - 2))
     jobs, hist_mut, hist_op, n_eval = [], {}, {}, 0
+    kind_jobs, kind_hist = [], {}
     patched_notes = {}
     shared = {}
     for s in base_specs:
@@ -1366,6 +1454,11 @@ def run(run: Run) -> int:
                 run.fail(*f)
         if rec["unsupported"]:
             st["unsupported"][rec["unsupported"]] = st["unsupported"].get(rec["unsupported"], 0) + 1
+            continue
+        if "kind_hist" in rec:
+            for k, n in rec["kind_hist"].items():
+                kind_hist[k] = kind_hist.get(k, 0) + n
+            kind_jobs += rec["jobs"]
             continue
         if rec["tag"] is None:
             continue
@@ -1391,16 +1484,27 @@ def run(run: Run) -> int:
     crash_list = []
     for i, phase in crashed:
         s = all_specs[i]
+        if "kind_base" in s:
+            run.fail("impl", f"C05/{s['op']}/wrong-kind-crashes-interpreter",
+                     f"{s['op']}: a constructor call with an argument of the wrong kind for its field aborted the interpreter "
+                     f"({phase}) - the kind check at the call site did not stop it",
+                     {"call": f"{s['op']}@v{s['v']} [{s['src']} / {phase}]", "spec": _jspec(s)})
+            continue
         crash_list.append({"op": s["op"], "v": s["v"], "src": s["src"], "mut": s["mut"],
                            "crashed_in": {"spox": "the constructor call itself", "ref": "the harness' reference model"}.get(phase, phase)})
     run_coq_jobs(run, jobs, st)
+    kind_agree = run_kind_jobs(run, kind_jobs, st)
+    st["kind_sweep"] = {"calls": sum(kind_hist.values()), "by_field_kind_and_argument": kind_hist,
+                        "compared_with_model": len(kind_jobs), "agree": kind_agree}
+    n_kind_jobs = len(kind_jobs)
     uncovered = {v: sorted(set(module(v)._OPERATORS) - cov_ops[v]) for v in VERSIONS}
     cov = {
         "evaluations": n_eval,
         "distinct_nontrivial": len({(j["spec"]["op"], j["spec"]["src"], j["spec"]["mut"]) for j in jobs}),
         "rule": "distinct (operator, corpus case, mutation) calls that reached the constructor and whose singleton model was compared",
         "traces_validated_against_impl": st.get("coq_ok", 0),
-        "disagreements_checked": len(jobs) - st.get("coq_ok", 0),
+        "disagreements_checked": len(jobs) + n_kind_jobs - st.get("coq_ok", 0),
+        "wrong_kind_argument_sweep": st.get("kind_sweep"),
         "singleton_models_compared": len(jobs),
         "classes_checked_table": st.get("classes_checked"),
         "applicable_corpus_cases_per_module": per_module,
@@ -1434,10 +1538,26 @@ def replay(run: Run, case) -> int:
     if not spec:
         print("no spec in replay file")
         return 2
+    st = {}
+    if "kind_base" in spec or d.get("field_kind"):
+        base = spec_from_json(spec.get("kind_base", spec))
+        ks = {"v": base["v"], "op": base["op"], "src": base["src"], "mut": "wrong-kind", "kind_base": base}
+        results, crashed = parallel_eval([ks], 1)
+        fails = [f for f in (results.get(0) or {"fails": []})["fails"] if f[0] != "note"]
+        if crashed:
+            fails.append(("impl", f"C05/{base['op']}/wrong-kind-crashes-interpreter", f"the interpreter aborted ({crashed[0][1]})", {}))
+        elif results.get(0) and results[0]["jobs"]:
+            run_kind_jobs(run, results[0]["jobs"], st)
+            fails += [(f.kind, f.key, f.what, f.detail) for f in run.failures]
+        print("call:", d.get("call"))
+        for kind, key, what, detail in fails:
+            print(f"  {kind} {key}: {what}")
+        if fails:
+            print(f"VIOLATION property=C05 replay={run.pid}")
+        return 1 if fails else 0
     if "hand" not in spec:
         spec = spec_from_json(spec)
     rec = eval_one(spec)
-    st = {}
     fails = [f for f in rec["fails"] if f[0] != "note"]
     if rec["jobs"]:
         run_coq_jobs(run, rec["jobs"], st, "replay")
